@@ -5,8 +5,10 @@
 //!                                              the real implementation, one output line per op
 mod c15;
 mod exec;
+mod lpg;
 mod ops;
 mod rdf;
+mod sess;
 mod tx;
 mod util;
 mod val;
@@ -43,6 +45,8 @@ fn main() {
                 "ops" => ops::generate(seed, cases, &mut out),
                 "val" => val::generate(seed, cases, &mut out),
                 "exec" => exec::generate(seed, cases, &mut out),
+                "lpg" => lpg::generate(seed, cases, &mut out),
+                "sess" => sess::generate(seed, cases, &mut out),
                 "wal" => wal::generate(seed, cases, args.iter().any(|a| a == "--thorough"), &mut out),
                 _ => {
                     eprintln!("unknown stream {stream}");
@@ -61,6 +65,8 @@ fn main() {
             let mut w = std::io::BufWriter::new(stdout.lock());
             let mut txst = tx::TxState_::new();
             let mut rdfst = rdf::RdfSt::new();
+            let mut lpgst = lpg::LpgSt::new();
+            let mut sessst = sess::SessSt::new();
             for line in stdin.lock().lines() {
                 let line = line.unwrap();
                 if line.starts_with('#') {
@@ -68,6 +74,8 @@ fn main() {
                     if line.starts_with("# case") {
                         txst = tx::TxState_::new();
                         rdfst = rdf::RdfSt::new();
+                        lpgst = lpg::LpgSt::new();
+                        sessst = sess::SessSt::new();
                     }
                     continue;
                 }
@@ -80,6 +88,8 @@ fn main() {
                     Some("ops") => ops::run(&toks[1..]),
                     Some("val") => val::run(&toks[1..]),
                     Some("exec") => exec::run(&toks[1..]),
+                    Some("lpg") => lpg::run(&mut lpgst, &toks[1..]),
+                    Some("sess") => sess::run(&mut sessst, &toks[1..]),
                     _ => "bad-op".to_string(),
                 };
                 writeln!(w, "{}", res).unwrap();
